@@ -1,10 +1,10 @@
 SPECIFICATION Spec
 CONSTANTS
-  Txs <- T3
-  Subm <- S3
+  Txs <- T2
+  Subm <- S2
   Limit = 0
-  MaxBlk = 2
-  PushChecked = TRUE
+  MaxBlk = 1
+  PushChecked = FALSE
   AtomicAppend = TRUE
   KeepCommittedInCache = TRUE
 VIEW view
